@@ -32,6 +32,8 @@ func (o SPOp) String() string {
 		return fmt.Sprintf("%s(%s,%s)", o.Op, quote(string(o.Name)), quote(string(o.Value)))
 	case "delete", "get", "getall", "has":
 		return fmt.Sprintf("%s(%s)", o.Op, quote(string(o.Name)))
+	case "reinit":
+		return fmt.Sprintf("SetSearch(%s)", quote(string(o.Value)))
 	}
 	return o.Op
 }
@@ -87,6 +89,16 @@ func (l listModel) apply(o SPOp) listModel {
 		return out
 	}
 	return l
+}
+
+// applyImplU is applyImpl plus the "reinit" operation, which needs the URL: SetSearch(value)
+// re-initialises the same list object from a new query.
+func applyImplU(u *url.Url, sp *url.SearchParams, o SPOp) {
+	if o.Op == "reinit" {
+		u.SetSearch(string(o.Value))
+		return
+	}
+	applyImpl(sp, o)
 }
 
 func applyImpl(sp *url.SearchParams, o SPOp) {
@@ -320,8 +332,19 @@ func check11Ops(c Case11, r *core.Rec) {
 		if strings.ContainsAny(string(o.Name)+string(o.Value), "&=+%# ") || !isPureASCII(string(o.Name)+string(o.Value)) {
 			r.NT()
 		}
-		model = model.apply(o)
-		applyImpl(sp, o)
+		if o.Op == "reinit" {
+			applyImplU(u, sp, o)
+			model = listModel(spec.ParseURLEncoded(u.Query()))
+			if !validUTF8List(model) {
+				return
+			}
+			for _, p := range model {
+				names[p.Name] = true
+			}
+		} else {
+			model = model.apply(o)
+			applyImpl(sp, o)
+		}
 		r.Class("op:" + o.Op)
 		var ns []string
 		for n := range names {
@@ -343,7 +366,7 @@ func check11Ops(c Case11, r *core.Rec) {
 		tu, _, _ := initialList(q)
 		tsp := tu.SearchParams()
 		for _, oo := range c.Ops[:i+1] {
-			applyImpl(tsp, oo)
+			applyImplU(tu, tsp, oo)
 		}
 		if got := readList(tsp); !pairsEqual(got, model, false) {
 			r.Failf("after %s: the list is %s, the list model gives %s", hist(), pairsString(got), pairsString(model))
@@ -443,10 +466,12 @@ func Gen11(t *rapid.T) Case11 {
 		c.Mode = "ops"
 		c.Query = B(genQuery(t))
 		n := rapid.IntRange(1, 12).Draw(t, "nops")
-		ops := []string{"append", "append", "append", "delete", "delete", "set", "set", "sort", "sortabs", "get", "getall", "has", "string"}
+		ops := []string{"append", "append", "append", "delete", "delete", "set", "set", "sort", "sort", "sortabs", "get", "getall", "has", "string", "reinit"}
 		for i := 0; i < n; i++ {
 			o := SPOp{Op: gen.Pick(t, "op", ops)}
 			switch o.Op {
+			case "reinit":
+				o.Value = B(genQuery(t))
 			case "append", "set":
 				o.Name, o.Value = B(gen.Pick(t, "name", c11Names)), B(gen.Pick(t, "value", c11Values))
 			case "delete", "get", "getall", "has":
@@ -475,7 +500,7 @@ func Gen11(t *rapid.T) Case11 {
 
 var P11 = core.Register(core.Prop[Case11]{
 	ID: "C11",
-	Rule: "three modes: ops (an initial query, then 1..12 of append/delete/set/sort/sortabs/get/getall/has/string with names and values from small colliding pools incl. delimiters '& = + % # space', escape look-alikes, non-ASCII, empty), parse (query text from the standard's serializer, token soup or query atoms incl. '&&', 'a=b=c', '+', truncated and invalid-UTF-8 escapes), roundtrip (0..5 pairs of pool or arbitrary strings appended to http://h/, the URL reparsed); " +
+	Rule: "three modes: ops (an initial query, then 1..12 of append/delete/set/sort/sortabs/get/getall/has/string/re-initialisation of the same list object through SetSearch, with names and values from small colliding pools incl. delimiters '& = + % # space', escape look-alikes, non-ASCII, empty), parse (query text from the standard's serializer, token soup or query atoms incl. '&&', 'a=b=c', '+', truncated and invalid-UTF-8 escapes), roundtrip (0..5 pairs of pool or arbitrary strings appended to http://h/, the URL reparsed); " +
 		"oracle: ops — a list model with the standard's list semantics, compared after every operation through Get/GetAll/Has for every name in play and through Iterate on a twin; parse — the reference application/x-www-form-urlencoded parser applied to the stored query (runs of U+FFFD collapsed); roundtrip — the appended list itself; " +
 		"non-trivial = a name or value contains a delimiter, '%' or non-ASCII, or a delete/set/sort touches a name occurring at least twice, or the round-trip list has at least 2 pairs; distinct by hash of the case",
 	Gen:   Gen11,
